@@ -214,6 +214,14 @@ def build_cases(quick):
                                         n_batches=nb, n_prior=N - 1, idx=None))
                         fan.append(dict(kind="fanout", N=N, pool="model", size=size, chunksize=cs, reverse=rev,
                                         n_batches=nb, n_prior=None, idx=idx_alts[2]))
+    # every ordering of a small contiguous block and of a block with a hole (non-monotonic arrays whose first/last are min/max too)
+    import itertools as _it
+
+    perm_idx = [list(p) for p in _it.permutations(range(1, 5))] + [list(p) for p in _it.permutations([0, 2, 3, 5])][::3]
+    for idx in perm_idx:
+        for nb in (None, 1, 2, 3, 5):
+            fan.append(dict(kind="fanout", N=8, pool="serial", size=1, n_batches=nb, n_prior=None, idx=idx))
+            fan.append(dict(kind="fanout_post", N=8, pool="serial", size=1, n_batches=nb, n_linear=1, idx=idx))
     for N in Ns:
         idxs = [list(range(N)), list(range(N))[::-1], [(3 * i + 1) % N for i in range(N)], [N - 1], [0, N - 1, 1][: min(3, N)]]
         for idx in idxs:
